@@ -171,7 +171,7 @@ def run(ctx):
     top = 16 if th else 12
     up_, down = list(range(2, top + 1)), list(range(top, 1, -1))
     for N in (2, 3, 4, 5):
-        for bx in BOXES + ("Z", "D", "E", "S", "F", "T", "U"):
+        for bx in BOXES + ("Z", "Zh", "D", "E", "S", "F", "T", "U"):
             for env in ("lin", "abs13", "const"):
                 for ms in (up_, down):
                     for mode in ("seq", "pair", "probe") + (("positional", "refine") if bx in ("B1", "D") else ()):
